@@ -25,14 +25,18 @@ import re
 import time
 
 from common import (REPO, COQ, VERIF, frac, zlit, coq_string, coqc, coqc_many, parse_evals, parse_zlist)
-from c19_translate import translate, TranslateError
+from c19_translate import translate, TranslateError, commented_rows
+import c19_shape
 
 THEOREMS = ["C19_element_lookup_by_every_identifier", "C19_isotope_lookup_by_every_identifier", "C19_lookup_any_argument_form",
             "C19_unknown_keys_rejected", "C19_names_and_symbols_unique",
             "C19_atomic_numbers_match_periodic_table", "C19_isotopes_consistent",
             "C19_eq_hash_agree", "C19_eq_hash_any_same_class", "C19_line_eq_hash_agree",
             "C19_species_work_as_dict_keys", "C19_lines_work_as_dict_keys",
-            "C19_isotope_number_by_construction", "C19_wf_key_clauses_necessary"]
+            "C19_isotope_number_by_construction", "C19_wf_key_clauses_necessary",
+            "C19_index_builders_refine_spec", "C19_rebuilding_indices_is_idempotent", "C19_lookups_are_case_blind",
+            "C19_eq_characterised_by_fields", "C19_dir_order_is_a_sorted_permutation",
+            "C19_species_dict_with_deletion_is_a_finite_map"]
 
 HEADER = ("Require Import Cherab.Common.Qx.\nFrom Coq Require Import String.\n"
           "Require Import Cherab.Model.C19_Registry Cherab.Model.C19_Check.\n")
@@ -512,7 +516,7 @@ def run(ctx):
         "two Line objects built from the same arguments (distinct objects that are equal)",
     ]
     ctx.rebuild()
-    ctx.proofs("Properties.C19", THEOREMS, extra_modules=("Model.C19_Check",))
+    ctx.proofs("Properties.C19", THEOREMS, extra_modules=("Model.C19_Check", "Model.C19_Shape"))
 
     import cherab
     assert list(cherab.__path__) == [REPO + "/cherab"], cherab.__path__
@@ -530,6 +534,34 @@ def run(ctx):
     except TranslateError as e:
         ctx.obligation("translator: elements.pyx", "translator", False, str(e))
         ctx.log("translator failed:", e)
+
+    # ---- (T2) shape of the class bodies: __hash__, __richcmp__, __init__, builders, lookup keys -> Gen/C19/Shape.v --------
+    p_shape = None
+    try:
+        shape_defs = c19_shape.translate_shape(src, os.path.join(REPO, "cherab", "core", "atomic", "line.pyx"),
+                                               os.path.join(REPO, "cherab", "openadas", "repository", "utility.py"))
+        crow = commented_rows(src)
+        allrows = sorted(set(crow + ([(s_["Z"], s_["name"], s_["symbol"]) for s_ in stmts if s_["kind"] == "element"] if stmts else [])))
+        rows_txt = ("Open Scope string_scope.\n(* every (Z, name, symbol) the source mentions, defined or commented out *)\n"
+                    "Definition src_rows : list (Z * string * string) := [%s].\n" % "; ".join(
+                        "(%s, %s, %s)" % (zlit(z), q(n), q(sy)) for z, n, sy in allrows) +
+                    "Lemma source_rows_are_periodic_rows : forallb (fun row => let '(z, n, s) := row in existsb (fun pr => "
+                    "let '(z', n', s') := pr in (Z.eqb z z' && String.eqb n n' && String.eqb s s')%bool) periodic_table) src_rows = true.\n"
+                    "Proof. vm_compute. reflexivity. Qed.\nEval vm_compute in (Z.of_nat (List.length src_rows)).\n")
+        p_shape = ctx.write_gen("Shape.v", HEADER + "Require Import Cherab.Model.C19_Shape.\n" + shape_defs
+                                + c19_shape.TIE_LEMMAS + rows_txt)
+        ctx.obligation("shape translator: bodies of __hash__/__richcmp__/__init__/builders/lookup keys of elements.pyx, line.pyx; "
+                       "utility.py compared with the reference", "translator", True, shape_defs)
+    except (c19_shape.ShapeError, TranslateError) as e:
+        ctx.obligation("shape translator: class bodies of elements.pyx / line.pyx / utility.py", "translator", False, str(e))
+        ctx.log("shape translator failed:", str(e)[:300])
+
+    def finish_shape(ok, out):
+        n_rows = parse_evals(out)[-1] if ok and parse_evals(out) else "?"
+        ctx.obligation("Gen/C19/Shape.v: 17 tie lemmas (source bodies interpreted = model functions, for all arguments; "
+                       "%s source rows, commented ones included, are rows of the model's periodic table)" % n_rows, "tie", ok, out[-1500:])
+        ctx.log("shape tie: %s" % ("ok" if ok else "FAILED " + out[-400:]))
+        return ok
 
     impl = Impl()
     ctx.log("imported module: %d elements, %d isotopes" % (len(impl.elements), len(impl.isotopes)))
@@ -611,8 +643,11 @@ def run(ctx):
                        "Definition results : list bool := [\n  " + ";\n  ".join(cases[i] for i in ids) + "].\n"
                        "Eval vm_compute in (failing results).\n")
                 files.append((ctx.write_gen("cases_%03d.v" % gi, txt), ids))
-            res = coqc_many([p_tie] + [f for f, _ in files], timeout=900)
+            res = coqc_many([p_tie] + ([p_shape] if p_shape else []) + [f for f, _ in files], timeout=900)
             tie_ok = finish_tie(*res[p_tie])
+            if p_shape:
+                tie_ok = finish_shape(*res[p_shape]) and tie_ok
+                p_shape = None
             for f, ids in files:
                 ok, out = res[f]
                 vals = parse_evals(out) if ok else []
@@ -631,6 +666,8 @@ def run(ctx):
         else:
             ctx.obligation("Gen/C19/Tie.v: load table = Some rg, wf rg = true", "tie", False, "State.v / Table.v failed")
 
+    if p_shape:          # the table translator failed, the shape tie is still checked
+        finish_shape(*coqc(p_shape, timeout=300))
     # ---- failing-input search: always run (cheap); decisive when something above broke --------------
     t0 = time.time()
     # ... and again on the same live module after the histories of the correspondence (thousands of lookups, dicts, a second
@@ -676,7 +713,7 @@ def run(ctx):
                      "definitions_translated": len(stmts) if stmts is not None else None},
         "tolerance": {"all discrete outputs": "exact", "weights": "bit for bit (exact rational of the double); additionally the "
                       "double is within 2^-50 relative of the exact decimal expression in the source"},
-        "partial": ["dict deletion (pop) is modelled and tied by the correspondence but no theorem is stated about it"],
+        "partial": [],
         "search": {"failures": len(fails), "pairs_compared": len(impl.exports) * (len(impl.exports) - 1) // 2},
     })
     ctx.coverage["samples"] = samples
